@@ -63,6 +63,7 @@ type vfWorldCfg struct {
 	ClientProto string `json:"client_proto,omitempty"`
 	// the deployment's and the foreign deployment's session keys are long (> 100 bytes) and differ only near the end
 	LongKeys bool `json:"long_keys,omitempty"`
+	KeyStyle string `json:"key_style,omitempty"` // newline | padded | blank (see keyA / keyB)
 	// what the provider advertises as code_challenge_methods_supported (nil: nothing)
 	ChallengeMethods []string `json:"challenge_methods,omitempty"`
 	TxnRedirect bool `json:"txn_redirect,omitempty"` // the token endpoint answers through redirects carrying a transaction cookie
@@ -312,6 +313,14 @@ func (w *vfWorld) peerInstance() *TraefikOidc {
 
 // addInstance creates a new instance in the given slot (replacing the one there)
 func (w *vfWorld) keyA() string {
+	switch w.cfg.KeyStyle { // keys as operators really configure them: read from a file with its newline, indented in YAML, left blank
+	case "newline":
+		return vfKeyA + "\n"
+	case "padded":
+		return " " + vfKeyA + "\t"
+	case "blank":
+		return strings.Repeat(" ", 40)
+	}
 	if w.cfg.LongKeys {
 		return vfKeyLongA
 	}
@@ -319,6 +328,12 @@ func (w *vfWorld) keyA() string {
 }
 
 func (w *vfWorld) keyB() string {
+	switch w.cfg.KeyStyle { // the OTHER deployment's key is the same text without the white space (blank: the plugin's public fall-back key)
+	case "newline", "padded":
+		return vfKeyA
+	case "blank":
+		return "0123456789abcdef0123456789abcdef0123456789abcdef0123456789abcdef"
+	}
 	if w.cfg.ForeignDefaultKey {
 		return "0123456789abcdef0123456789abcdef0123456789abcdef0123456789abcdef"
 	}
